@@ -120,6 +120,10 @@ Proof. intros s K. now rewrite segwit_new_bech32_panic_iff. Qed.
 (* taproot and schnorr slice parsers *)
 Theorem C10_total_control_block : forall xonly_valid sl w, cb_from_slice_p xonly_valid sl <> Panic w.
 Proof. exact cb_from_slice_p_total. Qed.
+(* and they are the total functions of Model/Taproot.v that C15 proves round trips about *)
+Theorem C10_control_block_is_model : forall xonly_valid sl,
+  cb_from_slice_p xonly_valid sl = of_tres (cb_from_slice xonly_valid sl) /\ branch_from_slice_p sl = of_tres (branch_from_slice sl).
+Proof. intros. split; [apply cb_from_slice_p_spec|apply branch_from_slice_p_spec]. Qed.
 Theorem C10_total_merkle_branch : forall sl w, branch_from_slice_p sl <> Panic w.
 Proof. exact branch_from_slice_p_total. Qed.
 Theorem C10_total_schnorr_sig : forall sig_ok sl w, schnorr_from_slice sig_ok sl <> Panic w /\ schnorr_pset sig_ok sl <> Panic w.
